@@ -84,7 +84,8 @@ def make_setup(case):
     T = rnd.randint(5, 12)
     pk, pres = G.rand_presence(rnd, len(shapes), T, kind=rnd.choice(["all", "never_one", "toggle", "random", "random", "bursts", "all_absent_steps"]))
     groups = None
-    if len(shapes) >= 2 and rnd.random() < 0.25:
+    force_groups = isinstance(case["seed"][-1], int) and case["seed"][-1] % 8 == 5
+    if len(shapes) >= 2 and (rnd.random() < 0.25 or force_groups):
         # several param groups (each with its own distributor, buffers and step counter); judged with exact communication only
         cut = rnd.randint(1, len(shapes) - 1)
         parts = [list(range(0, cut)), list(range(cut, len(shapes)))]
@@ -94,6 +95,12 @@ def make_setup(case):
             if pdt == "float64":
                 pdt = "float32"
                 cfg["param_dtype"], cfg["preconditioner_dtype"] = "float32", "float32"
+    if groups is not None and force_groups:
+        # a rank of the FIRST group is left without any gradient on some steps while later groups still have work
+        j0 = groups[0]["params"][rnd.randrange(len(groups[0]["params"]))]
+        for t_ in rnd.sample(range(T), max(1, T // 3)):
+            pres[t_][j0] = False
+        pk = "first_group_param_starved"
     pdts = None
     if pdt == "float32" and len(shapes) >= 2 and (rnd.random() < 0.25 or (isinstance(case["seed"][-1], int) and case["seed"][-1] % 10 == 3)):
         # one param group mixing bfloat16 and float32 parameters; communication at least as precise as every parameter
